@@ -689,12 +689,60 @@ func (s *kvGenState) randKeyNonEmpty() []byte {
 	}
 }
 
+// ffPrefixIter: prefix/range iteration with a prefix ending in 0xff bytes; the bucket holds keys just
+// above the true successor of the prefix (succ, succ+0x00, succ+..., succ+0xff) which a wrong limit
+// (0xff bytes not truncated, off-by-one carry) would leak into the result.
+func (s *kvGenState) ffPrefixIter() {
+	g := s.g
+	r := g.Rng
+	g.Reset()
+	s.committed = map[string]bool{}
+	s.working = nil
+	s.wOpen, s.rOpen = false, false
+	base := []byte(pick(r, "a", "1", "\x00", "_", "a1", "\xfe", "b_"))
+	pre := append([]byte{}, base...)
+	for k := 1 + r.Intn(2); k > 0; k-- {
+		pre = append(pre, 0xff)
+	}
+	succ := append([]byte{}, base...)
+	succ[len(succ)-1]++
+	bucket := kvPathTok([]string{kvGoodNames[r.Intn(5)]})
+	s.op("ff-prefix-iter", "begin w")
+	s.op("ff-prefix-iter", "create w %s", bucket)
+	keys := [][]byte{pre, append(append([]byte{}, pre...), 'x'), append(append([]byte{}, pre...), 0xff), base, succ,
+		append(append([]byte{}, succ...), 0x00), append(append([]byte{}, succ...), '1'),
+		append(append([]byte{}, succ...), 0xfe, 0xff), append(append([]byte{}, succ...), 0xff),
+		append(append([]byte{}, succ...), 0xff, 0x00)}
+	r.Shuffle(len(keys), func(i, j int) { keys[i], keys[j] = keys[j], keys[i] })
+	for i, k := range keys {
+		if r.Intn(5) > 0 {
+			s.op("ff-prefix-iter", "put w %s %s %02x", bucket, hexTok(k), 0x10+i)
+		}
+	}
+	if r.Intn(3) > 0 {
+		s.op("ff-prefix-iter", "commit")
+		s.op("ff-prefix-iter", "begin w")
+	}
+	s.op("ff-prefix-iter", "prefix w %s %s", bucket, hexTok(pre))
+	s.op("ff-prefix-iter", "commit")
+	if r.Intn(3) == 0 {
+		s.op("ff-prefix-iter", "reopen")
+	}
+	s.op("ff-prefix-iter", "begin r")
+	s.op("ff-prefix-iter", "iterp r %s %s a", bucket, hexTok(pre))
+	s.op("ff-prefix-iter", "prefix r %s %s", bucket, hexTok(pre))
+	s.op("ff-prefix-iter", "iterp r %s %s s%s,a", bucket, hexTok(pre), hexTok(pre))
+	s.op("ff-prefix-iter", "iter r %s %s - a", bucket, hexTok(pre))
+	s.op("ff-prefix-iter", "endr")
+}
+
 func genKv(g *Gen) {
 	s := &kvGenState{g: g}
 	r := g.Rng
 	nHist := g.Scale(500, 50000)
 	for i := g.Scale(60, 3000); i > 0; i-- {
 		s.siblingPrefix()
+		s.ffPrefixIter()
 	}
 	for i := 0; i < nHist; i++ {
 		maxOps := 60
